@@ -35,6 +35,10 @@ CHECKS = {
    text="Two analyses per path. Amplitude: the real cyclepoint search on x and a*x with a symbolic a > 0 (tables proved identical), and the full table on x and a*x for a in {2^-20, 1/2, 2, 2^20} with the cyclepoint search cut (voltage features and band_amp proved multiplied by a, everything else and the labels identical; scale factors are pulled out of the z3 terms so ratios cancel exactly). Units: the whole pipeline on (x, fs, f_range) and (x, c*fs, c*f_range) with symbolic c > 0 and ratio-keyed neurodsp stubs (tables proved identical).",
    note="Trusted: models (witness-validated); relational stub contracts (filter/amplitude positively homogeneous, detector scale-free, all depend on f/fs only). Bounds in evidence.bounds. IEEE rounding is outside (the statement itself restricts to powers of two).",
    ref="4 C10"),
+ 'C15': dict(
+   text="Each listed function is called for real on tracked argument objects with symbolic contents; a deep structural snapshot of every argument (arrays, nested option dicts, tables) is proved value-equal after the call (frame condition) and a second call on the very same objects is proved to return an equal result (repeatability) - one inductive step covering arbitrary call sequences that share argument objects.",
+   note="Trusted: models' view/copy and pandas copy-on-write semantics (conformance + witness replay); stubs as in C01 (same input -> same output). Plot functions' frame conditions live in the C20 harness; detect_bursts_* are outside the statement's list. Bounds in evidence.bounds.",
+   ref="4 C15"),
  'C16': dict(
    text="Table cells, two threshold vectors and two min_n_cycles are z3 variables; input labels are produced by the real detect_bursts_cycles on the same path, then the real recompute_edges/recompute_edge run; frame (input untouched, only edge consistency cells change), value (one-sided ratio) and label (rule on the edited table; bursts only grow for unchanged thresholds) obligations are proved. Larger tables use a cut of compute_*_consistency (proved by C05) to keep the arithmetic linear.",
    note="Trusted: pandas/numpy models (witness-validated), C05 for the cut configurations. Bounds: uncut rows 3..4 (quick) / 3..5 (thorough); cut rows 3..6 / 3..8.",
